@@ -3,6 +3,7 @@
 package main
 
 import (
+	"encoding/binary"
 	"bufio"
 	"bytes"
 	"encoding/json"
@@ -41,6 +42,10 @@ func init() {
 	families["stages.amqp"] = &Family{Gen: genAmqpConv, Run: func(p sx.Sx) sx.Sx { return runStages("amqp", p) }}
 	families["stages.http"] = &Family{Gen: genHttpStages, Run: func(p sx.Sx) sx.Sx { return runStages("http", p) }}
 	families["stages.kafka"] = &Family{Gen: genKafkaStages, Run: func(p sx.Sx) sx.Sx { return runStages("kafka", p) }}
+	families["stages.redismut"] = &Family{Gen: genStagesMut(genRedisConv, 3), Run: func(p sx.Sx) sx.Sx { return runStagesMut("redis", p) }}
+	families["stages.amqpmut"] = &Family{Gen: genStagesMut(genAmqpConv, 2), Run: func(p sx.Sx) sx.Sx { return runStagesMut("amqp", p) }}
+	families["stages.httpmut"] = &Family{Gen: genStagesMut(genHttpConv, 2), Run: func(p sx.Sx) sx.Sx { return runStagesMut("http", p) }}
+	families["stages.kafkamut"] = &Family{Gen: genStagesMut(genKafkaStages, 1), Run: func(p sx.Sx) sx.Sx { return runStagesMut("kafka", p) }}
 	families["stages.dns"] = &Family{Gen: genDnsEntries, Run: func(p sx.Sx) sx.Sx { return runStages("dns", p) }}
 	for _, p := range []string{"redis", "amqp", "http", "dns", "kafka"} {
 		families["queries."+p] = families["stages."+p]
@@ -113,29 +118,43 @@ func itemObs(d api.Dissector, it *api.OutputChannelItem) sx.Sx {
 	return sx.L(out...)
 }
 
-func runStages(proto string, p sx.Sx) sx.Sx {
-	var d api.Dissector
-	var cb, sb []byte
+func stagesDissector(proto string) api.Dissector {
 	switch proto {
 	case "redis":
-		d = redisExt.NewDissector()
+		return redisExt.NewDissector()
+	case "amqp":
+		return amqpExt.NewDissector()
+	case "http":
+		return httpExt.NewDissector()
+	case "kafka":
+		return kafkaExt.NewDissector()
+	}
+	return dnsExt.NewDissector()
+}
+
+// stagesEncode: the two halves of the conversation of the protocol's conv family
+func stagesEncode(proto string, p sx.Sx) (cb, sb []byte) {
+	switch proto {
+	case "redis":
 		cb, sb = encConv(p.List[0].List[1:])
 	case "amqp":
-		d = amqpExt.NewDissector()
 		cb, sb = encFrames(p.List[0]), encFrames(p.List[1])
 	case "http":
-		d = httpExt.NewDissector()
 		cb, sb = encHttpConv(p)
 	case "kafka":
-		d = kafkaExt.NewDissector()
 		for _, m := range p.List[0].List {
 			cb = append(cb, m.List[len(m.List)-1].Bytes()...)
 		}
 		for _, m := range p.List[1].List {
 			sb = append(sb, m.List[len(m.List)-1].Bytes()...)
 		}
-	case "dns":
-		d = dnsExt.NewDissector()
+	}
+	return
+}
+
+func runStages(proto string, p sx.Sx) sx.Sx {
+	d := stagesDissector(proto)
+	if proto == "dns" {
 		var req, resp map[string]interface{}
 		if err := json.Unmarshal(p.List[1].Bytes(), &req); err != nil {
 			return sx.L(sx.A("harness-error"), sx.S(err.Error()))
@@ -154,10 +173,17 @@ func runStages(proto string, p sx.Sx) sx.Sx {
 		}
 		return sx.L(itemObs(d, it))
 	}
+	cb, sb := stagesEncode(proto, p)
+	return stagesOnBytes(proto, d, cb, sb)
+}
+
+func stagesOnBytes(proto string, d api.Dissector, cb, sb []byte) sx.Sx {
 	stats := &api.AppStats{}
 	out := make(chan *api.OutputChannelItem, 1<<14)
 	port := map[string]string{"redis": "6379", "amqp": "5672", "http": "80", "kafka": "9092"}[proto]
-	conn := mock.NewConn(d, d.NewResponseRequestMatcher(), stats, out, "pcap0", "10.0.0.1", "40000", "10.0.0.2", port)
+	m := d.NewResponseRequestMatcher()
+	m.SetMaxTry(1)
+	conn := mock.NewConn(d, m, stats, out, "pcap0", "10.0.0.1", "40000", "10.0.0.2", port)
 	halfRun := func(b []byte, r *mock.Reader) {
 		defer func() { _ = recover() }()
 		_ = d.Dissect(bufio.NewReader(bytes.NewReader(b)), r)
@@ -170,6 +196,69 @@ func runStages(proto string, p sx.Sx) sx.Sx {
 		obs = append(obs, itemObs(d, it))
 	}
 	return sx.L(obs...)
+}
+
+// stages.<proto>mut (C11, "corrupted streams that still emit"): the conversation of the conv family
+// with 1-3 byte-level mutations (a byte set to a boundary value, a 16/32-bit field set to 0 / -1 /
+// 65535 / 65536, a truncation); every item the dissector still emits goes through the stages.
+// payload: (conv (side kind offset value) ...)
+func runStagesMut(proto string, p sx.Sx) sx.Sx {
+	d := stagesDissector(proto)
+	cb, sb := stagesEncode(proto, p.List[0])
+	for _, m := range p.List[1:] {
+		b := &cb
+		if m.List[0].Atom == "s" {
+			b = &sb
+		}
+		if len(*b) == 0 {
+			continue
+		}
+		off := int(m.List[2].Int()) % len(*b)
+		v := m.List[3].Int()
+		switch m.List[1].Atom {
+		case "byte":
+			(*b)[off] = byte(v)
+		case "u16":
+			if off+2 <= len(*b) {
+				binary.BigEndian.PutUint16((*b)[off:], uint16(v))
+			}
+		case "u32":
+			if off+4 <= len(*b) {
+				binary.BigEndian.PutUint32((*b)[off:], uint32(v))
+			}
+		case "trunc":
+			*b = (*b)[:off]
+		}
+	}
+	return stagesOnBytes(proto, d, cb, sb)
+}
+
+func genStagesMut(base func(*Rand, string, func(sx.Sx)), every int) func(*Rand, string, func(sx.Sx)) {
+	return func(r *Rand, tier string, emit func(sx.Sx)) {
+		n := 0
+		base(r, tier, func(conv sx.Sx) {
+			n++
+			if n%every != 0 {
+				return
+			}
+			out := []sx.Sx{conv}
+			for k := 1 + r.Intn(3); k > 0; k-- {
+				side := []string{"c", "s"}[r.Intn(2)]
+				off := r.Intn(1 << 16)
+				switch r.Intn(6) {
+				case 0, 1:
+					out = append(out, sx.L(sx.A(side), sx.A("byte"), sx.N(off), sx.N([]int{0, 1, 255, 128, 127, 13, 10, 34}[r.Intn(8)])))
+				case 2:
+					out = append(out, sx.L(sx.A(side), sx.A("u16"), sx.N(off), sx.N([]int{0, 65535, 32768, 1, 300}[r.Intn(5)])))
+				case 3, 4:
+					out = append(out, sx.L(sx.A(side), sx.A("u32"), sx.N(off), sx.I([]int64{0, 4294967295, 65535, 65536, 1, 2147483647}[r.Intn(6)])))
+				default:
+					out = append(out, sx.L(sx.A(side), sx.A("trunc"), sx.N(off), sx.N(0)))
+				}
+			}
+			emit(sx.L(out...))
+		})
+	}
 }
 
 // ---- HTTP/1.x conversations (also used by http.conv)
